@@ -30,9 +30,25 @@ theorem reuseLoop_eq (o : Oracle) (r : Nat) : reuseLoop o r r = loop 6 (reuseEff
     simp_all
   case case6 r _ hge _ _ => intro h; omega
 
-/-- the loop as written in `quic_transport.go` is `loop 5` -/
-theorem quicLoop_eq (o : Oracle) (r : Nat) : quicLoop o r r = loop 5 o r := by
-  fun_induction loop 5 o r <;> (rw [quicLoop]; simp_all) <;> omega
+/-- does the quic transport hold no connection when attempt `r` starts (the previous attempt
+    ended with `forgetConn`)? -/
+def quicForgot (o : Oracle) : Nat → Bool
+  | 0 => false
+  | r + 1 => (quicEff o r).connErr
+
+theorem quicEff_eq (o : Oracle) (r : Nat) :
+    quicEff o r = if quicForgot o r then forcedDial (o r) else o r := by
+  cases r with
+  | zero => simp [quicEff, quicForgot]
+  | succ n => simp only [quicEff, quicForgot]; rfl
+
+/-- the loop as written in `quic_transport.go` (with `forgetConn`) is `loop 5` over the attempts as
+    they really happen -/
+theorem quicLoop_eq (o : Oracle) (r : Nat) :
+    quicLoop o r r (quicForgot o r) = loop 5 (quicEff o) r := by
+  fun_induction loop 5 (quicEff o) r <;> (rw [quicLoop]; simp_all [← quicEff_eq])
+  case case4 r _ _ _ _ _ ih => simpa [quicForgot] using ih
+  case case6 r _ hge _ _ => intro h; omega
 
 /-- at least one attempt is made -/
 theorem loop_n_gt (lim : Nat) (o : Oracle) (r : Nat) : r < (loop lim o r).n := by
@@ -149,6 +165,101 @@ theorem loop_dials_le_one (lim : Nat) (o : Oracle) : dialsUpTo o (loop lim o 0).
     dialsUpTo_stale o m (fun i hi => (loop_nonfinal lim o 0 i (Nat.zero_le _) (by omega)).1)
   have := dialsUpTo_succ_le o m
   omega
+
+/-! ### the write lock -/
+
+/-- only the holder of the lock is past the select, and the deadline in force while somebody is
+    inside `Write` is that exchange's own -/
+def WInv (ddl : Nat → Option Nat) (s : WState) : Prop :=
+  (∀ x, (s.pc x = .locked ∨ s.pc x = .writing) → s.lock = some x) ∧
+  (∀ x, s.pc x = .writing → s.sockDdl = ddl x)
+
+theorem winit_inv (ddl : Nat → Option Nat) : WInv ddl winit := by
+  constructor <;> intro x h <;> simp [winit] at h
+
+theorem wstep_inv (ddl : Nat → Option Nat) (s : WState) (op : WOp) (h : WInv ddl s) :
+    WInv ddl (wstep ddl s op) := by
+  obtain ⟨h1, h2⟩ := h
+  cases op with
+  | giveUp x =>
+    simp only [wstep]
+    split
+    · rename_i hx
+      constructor
+      · intro y hy
+        by_cases hyx : y = x
+        · subst hyx; simp [wupd] at hy
+        · simp only [wupd, hyx, if_false] at hy; exact h1 y hy
+      · intro y hy
+        by_cases hyx : y = x
+        · subst hyx; simp [wupd] at hy
+        · simp only [wupd, hyx, if_false] at hy; exact h2 y hy
+    · exact ⟨h1, h2⟩
+  | step x =>
+    simp only [wstep]
+    split
+    · -- idle → waiting
+      constructor
+      · intro y hy
+        by_cases hyx : y = x
+        · subst hyx; simp [wupd] at hy
+        · simp only [wupd, hyx, if_false] at hy; exact h1 y hy
+      · intro y hy
+        by_cases hyx : y = x
+        · subst hyx; simp [wupd] at hy
+        · simp only [wupd, hyx, if_false] at hy; exact h2 y hy
+    · -- waiting
+      split
+      · rename_i hl
+        constructor
+        · intro y hy
+          by_cases hyx : y = x
+          · subst hyx; rfl
+          · simp only [wupd, hyx, if_false] at hy
+            have := h1 y hy
+            rw [hl] at this; cases this
+        · intro y hy
+          by_cases hyx : y = x
+          · subst hyx; simp [wupd] at hy
+          · simp only [wupd, hyx, if_false] at hy; exact h2 y hy
+      · exact ⟨h1, h2⟩
+    · -- locked → writing: SetWriteDeadline by the holder
+      rename_i hx
+      have hlx := h1 x (Or.inl hx)
+      constructor
+      · intro y hy
+        by_cases hyx : y = x
+        · subst hyx; exact hlx
+        · simp only [wupd, hyx, if_false] at hy; exact h1 y hy
+      · intro y hy
+        by_cases hyx : y = x
+        · subst hyx; rfl
+        · simp only [wupd, hyx, if_false] at hy
+          have := h1 y (Or.inr hy)
+          rw [hlx] at this
+          exact absurd (Option.some.inj this).symm hyx
+    · -- writing → done: release
+      rename_i hx
+      have hlx := h1 x (Or.inr hx)
+      constructor
+      · intro y hy
+        by_cases hyx : y = x
+        · subst hyx; simp [wupd] at hy
+        · simp only [wupd, hyx, if_false] at hy
+          have := h1 y hy
+          rw [hlx] at this
+          exact absurd (Option.some.inj this).symm hyx
+      · intro y hy
+        by_cases hyx : y = x
+        · subst hyx; simp [wupd] at hy
+        · simp only [wupd, hyx, if_false] at hy; exact h2 y hy
+    · exact ⟨h1, h2⟩
+
+theorem wrun_inv (ddl : Nat → Option Nat) (s : WState) (ops : List WOp) (h : WInv ddl s) :
+    WInv ddl (wrun ddl s ops) := by
+  induction ops generalizing s with
+  | nil => exact h
+  | cons op t ih => exact ih _ (wstep_inv ddl s op h)
 
 /-! ### the pipelined connection -/
 
